@@ -1,6 +1,7 @@
 import Chartparse.Tie.BpmStep
 import Chartparse.Props.C01
 import Chartparse.Props.C11
+import Chartparse.Props.C12
 /-! What the leaf ties buy at the level of the property theorems: statements about **the dumped code** (the ASTs of /repo's working
     tree under the embedded semantics), not about the hand model.
     * the tempo accumulation of the hand model (`buildFrom`) is the iteration of the dumped step of `BPMEvent.from_parsed_data`;
@@ -118,6 +119,36 @@ theorem query_errors_are_ValueError_code (res : Int) (evs : List BpmEv) (tick : 
     simp only [Except.map, Except.error.injEq] at herr
     rw [← herr]
     exact Props.C11.C11_errors_are_ValueError res evs tick h e' hq
+
+end Chartparse.Tie
+
+namespace Chartparse.Tie
+open Chartparse Chartparse.Py Chartparse.Tempo Chartparse.F64
+
+/-- **C12 for the dumped query (monotone)**: on a map the model's accumulation built, what the dumped code returns for a later-or-equal
+    tick is never earlier -/
+theorem C12_mono_code (res : Nat) (raw : List (Nat × Rat)) (evs : List BpmEv) (hb : buildMap (res : Int) raw = .ok evs)
+    (a b : Nat) (hab : a ≤ b) (x y ga gb : Int)
+    (ha : queryCode (res : Int) evs (a : Int) 0 = .ok (.pair (.td x) (.int ga)))
+    (hbq : queryCode (res : Int) evs (b : Int) 0 = .ok (.pair (.td y) (.int gb))) : x ≤ y :=
+  Props.C12.C12_mono res raw evs hb a b hab x y ga.toNat gb.toNat (tsAt_of_code _ _ _ _ _ _ ha) (tsAt_of_code _ _ _ _ _ _ hbq)
+
+/-- **C12 for the dumped query (a function of the tick)**: two successful answers for one tick, under whatever hints, are the same -/
+theorem C12_equal_code (res : Int) (evs : List BpmEv) (hs : (evs.map (·.tick)).Pairwise (· < ·)) (tick : Int) (h h' : Nat)
+    (x y g g' : Int) (hq : queryCode res evs tick h = .ok (.pair (.td x) (.int g)))
+    (hq' : queryCode res evs tick h' = .ok (.pair (.td y) (.int g'))) : x = y := by
+  have := Props.C12.C12_equal res evs hs tick h h' _ _ (tsAt_of_code _ _ _ _ _ _ hq) (tsAt_of_code _ _ _ _ _ _ hq')
+  exact (Prod.mk.inj this).1
+
+/-- **C12 for the dumped query (strict)**: every tick lasting at least two microseconds and the exact time below 10⁶ s -/
+theorem C12_strict_code (res : Nat) (hres : 1 ≤ res) (pairs : List (Nat × Nat)) (hn : ∀ p ∈ pairs, 1 ≤ p.2)
+    (hslow : ∀ p ∈ pairs, p.2 * res ≤ 30000000000) (evs : List BpmEv) (hb : mapOf res pairs = .ok evs)
+    (a b : Nat) (hab : a < b) (x y ga gb : Int)
+    (ha : queryCode (res : Int) evs (a : Int) 0 = .ok (.pair (.td x) (.int ga)))
+    (hbq : queryCode (res : Int) evs (b : Int) 0 = .ok (.pair (.td y) (.int gb)))
+    (hE : exactUs res pairs b < 1000000000000) : x < y :=
+  Props.C12.C12_strict res hres pairs hn hslow evs hb a b hab x y ga.toNat gb.toNat (tsAt_of_code _ _ _ _ _ _ ha)
+    (tsAt_of_code _ _ _ _ _ _ hbq) hE
 
 end Chartparse.Tie
 
